@@ -289,6 +289,9 @@ def hashablize(obj):
     if isinstance(obj, Mapping):
         # Convert immutabledict etc for json decoding
         obj = dict(obj)
+    if isinstance(obj, (set, frozenset)):
+        # Sets have no order of their own (and str hashes differ per process)
+        return tuple(sorted((hashablize(o) for o in obj), key=repr))
     try:
         hash(obj)
     except TypeError:
